@@ -296,6 +296,172 @@ def split_elementary_rule(chk, src, rule):
            detail="a term on a degree of freedom the model does not have must not be dropped or put on some site silently")
 
 
+def deduplicate_rule(chk, src, rule):
+    """abstract run of _deduplicate_table on exact data (rows as tuples, coefficients as exact rationals, the numpy / scipy operations it plausibly uses as operations on
+    lists): equal rows are merged by adding their coefficients, each distinct row appears once with the sum, and a merged row is dropped only when its *merged*
+    coefficient is negligible against the largest *merged* coefficient (cancelling duplicates of any size must not take small genuine terms with them)"""
+    from fractions import Fraction as Fr
+    from ..syminterp import SymInterp, Sym, Blob, OpenSym, SymRaise
+    fi = src.func(SYM, "_deduplicate_table")
+
+    class Vec(Sym):
+        """exact vector"""
+        def __init__(self, v):
+            super().__init__("vector")
+            self.v = [x if isinstance(x, bool) else Fr(x) for x in v]
+            self.shape = (len(self.v),)
+
+        def __len__(self):
+            return len(self.v)
+
+        def __iter__(self):
+            return iter(self.v)
+
+        def __getitem__(self, k):
+            if isinstance(k, Vec):
+                if k.v and all(isinstance(x, bool) for x in k.v):
+                    return Vec([a_ for a_, m in zip(self.v, k.v) if m])
+                return Vec([self.v[int(i)] for i in k.v])
+            if isinstance(k, slice):
+                return Vec(self.v[k])
+            return self.v[int(k)]
+
+        def _cmp(self, o, f):
+            ov = o.v if isinstance(o, Vec) else [o] * len(self.v)
+            return Vec([bool(f(a_, Fr(b_))) for a_, b_ in zip(self.v, ov)])
+
+        def __gt__(self, o):
+            return self._cmp(o, lambda a_, b_: a_ > b_)
+
+        def __ge__(self, o):
+            return self._cmp(o, lambda a_, b_: a_ >= b_)
+
+        def __lt__(self, o):
+            return self._cmp(o, lambda a_, b_: a_ < b_)
+
+        def __mul__(self, o):
+            return Vec([a_ * Fr(o) for a_ in self.v])
+
+        __rmul__ = __mul__
+
+        def __truediv__(self, o):
+            return Vec([a_ / Fr(o) for a_ in self.v])
+
+        def __invert__(self):
+            return Vec([not a_ for a_ in self.v])
+
+        def astype(self, *a, **k):
+            return self
+
+    class Tab(Sym):
+        def __init__(self, rows):
+            super().__init__("table")
+            self.rows = [tuple(r) for r in rows]
+            self.shape = (len(self.rows), len(self.rows[0]) if self.rows else 0)
+
+        def __len__(self):
+            return len(self.rows)
+
+        def __iter__(self):
+            return iter(self.rows)
+
+        def __getitem__(self, k):
+            if isinstance(k, Vec):
+                if k.v and all(isinstance(x, bool) for x in k.v):
+                    return Tab([r for r, m in zip(self.rows, k.v) if m])
+                return Tab([self.rows[int(i)] for i in k.v])
+            if isinstance(k, tuple) and len(k) == 2 and k[0] == slice(None) and hasattr(k[1], "__index__"):
+                return Vec([r[int(k[1])] for r in self.rows])
+            if hasattr(k, "__index__"):
+                return self.rows[int(k)]
+            raise AnalysisError(f"table index {k!r} is not modelled")
+
+    def unique(t, axis=None, return_inverse=False, return_index=False, return_counts=False):
+        rows = sorted(set(t.rows))
+        out = [Tab(rows)]
+        if return_index:
+            out.append(Vec([t.rows.index(r) for r in rows]))
+        if return_inverse:
+            out.append(Vec([rows.index(r) for r in t.rows]))
+        if return_counts:
+            out.append(Vec([t.rows.count(r) for r in rows]))
+        return out[0] if len(out) == 1 else tuple(out)
+
+    class Sparse(Sym):
+        def __init__(self, data, rows, cols):
+            super().__init__("sparse")
+            self.ent = list(zip([int(x) for x in rows], [int(x) for x in cols], [Fr(x) for x in data]))
+
+        def dot(self, vec):
+            n = max(r for r, _, _ in self.ent) + 1
+            out = [Fr(0)] * n
+            for r, c, d_ in self.ent:
+                out[r] += d_ * vec.v[c]
+            return Vec(out)
+
+        __matmul__ = dot
+
+    def csr(arg, shape=None, **k):
+        data, (rows, cols) = arg
+        return Sparse(list(data), list(rows), list(cols))
+
+    def np_array(x, *a, **k):
+        if isinstance(x, (Tab, Vec)):
+            return x
+        x = list(x)
+        if x and isinstance(x[0], (list, tuple)):
+            return Tab(x)
+        return Vec(x)
+
+    def bincount(idx, weights=None, minlength=0):
+        n = max(max(int(i) for i in idx) + 1, minlength)
+        out = [Fr(0)] * n
+        for i, w_ in zip(idx, weights.v if weights is not None else [1] * len(idx)):
+            out[int(i)] += Fr(w_)
+        return Vec(out)
+
+    def add_at(target, idx, vals):
+        for i, v_ in zip(idx, vals):
+            target.v[int(i)] += Fr(v_)
+    npx = OpenSym("np", make=lambda t: Blob(t), unique=unique, array=np_array, asarray=np_array, ones=lambda n_, *a, **k: Vec([1] * int(n_)), zeros=lambda n_, *a, **k: Vec([0] * int(n_)),
+                  abs=lambda v: Vec([abs(x) for x in v.v]), absolute=lambda v: Vec([abs(x) for x in v.v]), max=lambda v: max(v.v), amax=lambda v: max(v.v), arange=lambda n_: Vec(range(int(n_))),
+                  iinfo=lambda t: Sym("iinfo", max=10 ** 12), uint32="uint32", uint16="uint16", bincount=bincount, add=Sym("add", at=add_at), nonzero=lambda m: (Vec([i for i, x in enumerate(m.v) if x]),),
+                  flatnonzero=lambda m: Vec([i for i, x in enumerate(m.v) if x]), logical_not=lambda m: Vec([not x for x in m.v]), isclose=None)
+    A, B, C, D = (0, 1), (0, 2), (1, 1), (2, 0)
+    big = 10 ** 15
+    cases = [
+        ("duplicates merged, order irrelevant", [A, B, A, C], [2, 3, 5, 7], {A: 7, B: 3, C: 7}),
+        ("exact cancellation removes the row", [A, B, A], [4, 1, -4], {B: 1}),
+        ("large cancelling duplicates next to a unit term", [A, B, A, C], [big, 1, -big, 2], {B: 1, C: 2}),
+        ("three-way cancellation next to small couplings", [D, A, D, D, B], [4 * 10 ** 10, Fr(1, 10 ** 5), -10 ** 10, -3 * 10 ** 10, Fr(2, 10 ** 5)], {A: Fr(1, 10 ** 5), B: Fr(2, 10 ** 5)}),
+        ("a genuinely negligible merged term is dropped", [A, B], [1, Fr(1, 10 ** 17)], {A: 1}),
+    ]
+    for name, rows, facs, want in cases:
+        it = SymInterp(src, None, {"np": npx, "scipy": Sym("scipy", sparse=Sym("sparse", csr_matrix=csr, coo_matrix=csr)), "logger": Blob("logger"), "float": Fr, "len": len})
+        it.max_depth = 6
+        it.exact = True
+        probs = []
+        try:
+            res = it.call_function(fi, [Tab(rows), Vec(facs)])
+        except SymRaise as e:
+            res = None
+            probs.append(f"raises {e}")
+        if res is not None:
+            if not (isinstance(res, tuple) and len(res) == 2 and isinstance(res[0], Tab) and isinstance(res[1], Vec) and len(res[0]) == len(res[1])):
+                probs.append(f"returns {str(res)[:80]}; expected (table, coefficients) of equal length")
+            else:
+                got = {}
+                for r, f_ in zip(res[0].rows, res[1].v):
+                    if r in got:
+                        probs.append(f"row {r} appears twice in the result")
+                    got[r] = f_
+                if got != {k_: Fr(v_) for k_, v_ in want.items()}:
+                    probs.append(f"result {dict((k_, str(v_)) for k_, v_ in got.items())}; expected {dict((k_, str(v_)) for k_, v_ in want.items())}")
+        chk.ob(rule, f"_deduplicate_table[{name}]", not probs, fi.where, probs[:2] or "merged", "equal rows merged by summing; negligibility judged on the merged coefficients", line=fi.node.lineno,
+               detail="terms with the same operator string are one term whose coefficient is the sum: a threshold taken from the unmerged coefficients drops genuine small terms whenever "
+                      "large duplicates cancel: " + (probs[0] if probs else ""))
+
+
 def run(chk):
     src = chk.src
     chk.explanation = (
@@ -628,10 +794,7 @@ def run(chk):
     term_table_rule(chk, src)
     # ---- split order / dedup
     split_elementary_rule(chk, src, "split-order")
-    dd = src.func(SYM, "_deduplicate_table")
-    txt = unparse(dd.node).replace(" ", "")
-    ok = "np.unique(table,axis=0,return_inverse=True)" in txt and "factor=mask.dot(factor)" in txt and "coord[:,0],coord[:,1]" in txt
-    chk.ob("split-order", "duplicate rows merged by summing their factors", ok, dd.where, ok, True, line=dd.node.lineno)
+    deduplicate_rule(chk, src, "split-order")
     if deferred:
         raise deferred[0]
 
